@@ -71,6 +71,19 @@ func GenesisFor(profile string, r *rand.Rand) GenesisCfg {
 		HouseParticipationFee: sdkmath.LegacyMustNewDecFromStr(pick(r, []string{"0", "0.1", "0.05", "0.013", "0.5"})),
 		MaxWithdrawalCount:    pick(r, []uint64{1, 2, 3}),
 	}
+	if profile == "params" {
+		// extreme but accepted values (C17)
+		min := pick(r, []int64{2, 3, 100})
+		cfg.Bet.Constraints.MinAmount = sdkmath.NewInt(min)
+		cfg.Bet.Constraints.Fee = sdkmath.NewInt(pick(r, []int64{0, min - 1, min - 1, 1}))
+		cfg.Bet.BatchSettlementCount = pick(r, []uint32{1, 1, 4294967295})
+		cfg.Orderbook.MaxOrderBookParticipations = pick(r, []uint64{1, 2, 18446744073709551615})
+		cfg.Orderbook.BatchSettlementCount = pick(r, []uint64{1, 1, 18446744073709551615})
+		cfg.Orderbook.RequeueThreshold = pick(r, []uint64{0, 18446744073709551615, 1000000})
+		cfg.House.MinDeposit = sdkmath.NewInt(pick(r, []int64{2, 2, 100}))
+		cfg.House.HouseParticipationFee = sdkmath.LegacyMustNewDecFromStr(pick(r, []string{"0", "0.99", "1", "1.5", "3", "0.999999999999999999", "0.5"}))
+		cfg.House.MaxWithdrawalCount = pick(r, []uint64{1, 18446744073709551615})
+	}
 	cfg.Subaccount.WagerEnabled = r.Intn(10) != 0
 	cfg.Subaccount.DepositEnabled = r.Intn(10) != 0
 	if profile == "mint" {
@@ -733,6 +746,8 @@ func (g *Gen) NextTx() Op {
 		ws = append(ws, w{g.genSubCreate, 6}, w{g.genSubTopUp, 5}, w{g.genSubWithdraw, 10}, w{g.genSubWager, 14},
 			w{g.genSubHouseDeposit, 8}, w{g.genSubHouseWithdraw, 4})
 		ws[5].w = 12
+	case "params":
+		ws = append(ws, w{g.genSubCreate, 3}, w{g.genSubHouseDeposit, 4}, w{g.genSubWager, 4})
 	case "ovm":
 		ws = []w{{g.genMarketAdd, 4}, {g.genMarketUpdate, 2}, {g.genPropose, 10}, {g.genVote, 40}, {g.genSend, 1}}
 	}
